@@ -22,6 +22,7 @@ from cassandra.cython_utils cimport datetime_from_timestamp
 from cython.view cimport array as cython_array
 from cassandra.tuple cimport tuple_new, tuple_set
 
+import datetime
 import socket
 from decimal import Decimal
 from uuid import UUID
@@ -135,8 +136,10 @@ cdef class DesCounterColumnType(DesLongType):
 
 cdef class DesDateType(Deserializer):
     cdef deserialize(self, Buffer *buf, int protocol_version):
-        cdef double timestamp = unpack_num[int64_t](buf) / 1000.0
-        return datetime_from_timestamp(timestamp)
+        # integer milliseconds, like cqltypes.DateType.deserialize: going through float seconds
+        # loses microseconds for timestamps far from the epoch
+        cdef int64_t timestamp = unpack_num[int64_t](buf)
+        return util.DATETIME_EPOC + datetime.timedelta(milliseconds=timestamp)
 
 
 cdef class TimestampType(DesDateType):
